@@ -22,6 +22,7 @@ func Gen(t *rapid.T) *Case {
 			Seq:    rapid.IntRange(0, 4).Draw(t, "seq") == 0,
 			Filter: rapid.SampledFrom([]string{"", "", "", "even", "none"}).Draw(t, "filter"),
 			Panic:  rapid.SampledFrom([]string{"", "", "", "always", "odd"}).Draw(t, "panic"),
+			Replay: rapid.IntRange(0, 3).Draw(t, "replaySub") == 0,
 		})
 	}
 	// one synchronous handler may cancel the publish context (placed anywhere, often last)
